@@ -45,7 +45,7 @@ class GemseoModels:
             return BoundMethod(obj, None, attr)
         if isinstance(obj, SV) and isinstance(obj.ty, TRec) and obj.ty.cls is not None and (obj.ty.cls, attr) in RECORD_METHODS:
             return BoundMethod(obj, None, f"rec:{attr}")
-        if isinstance(obj, SV) and obj.ty == TNd:
+        if isinstance(obj, SV) and obj.ty.sort() == ValS and not isinstance(obj.ty, TRec):
             if attr in ("real", "data"):
                 return obj  # real dtype assumed; `.data` is only used for NaN checks
             return BoundMethod(obj, None, attr)
@@ -61,7 +61,7 @@ class GemseoModels:
         if isinstance(recv, SV) and isinstance(recv.ty, TAddr):
             if name == "copy":
                 return self._copy_addr(ex, recv)
-        if isinstance(recv, SV) and recv.ty == TNd:
+        if isinstance(recv, SV) and recv.ty.sort() == ValS:
             if name == "any":
                 return SV(np_any(recv.term), TBool)
         if name.startswith("rec:") and isinstance(recv, SV):
